@@ -294,6 +294,7 @@ func (br *Bridge) Push(packet []byte, fromID int) bool { //nolint:gocognit,cyclo
 				} else {
 					br.err = err
 				}
+				br.stack0 = nil
 			}
 		case br.filterCB0 != nil && !br.filterCB0(data):
 			// fmt.Printf("br: filtered out a packet of size %d (q0)\n", len(d)) // nolint
@@ -314,6 +315,7 @@ func (br *Bridge) Push(packet []byte, fromID int) bool { //nolint:gocognit,cyclo
 					br.err = err
 				}
 				br.queue1to0 = append(br.queue1to0, br.stack1...)
+				br.stack1 = nil
 			}
 		case br.filterCB1 != nil && !br.filterCB1(data):
 			// fmt.Printf("br: filtered out a packet of size %d (q1)\n", len(d)) // nolint
